@@ -248,30 +248,24 @@ func (m *Manager[T]) scan(id string) error {
 			continue
 		}
 
-		// Need to create a new client
+		// Need to create a new client. The subscription is set up first (its
+		// callback waits until the client exists), so that nothing that is
+		// written to the node or its children while the client is being
+		// created from a snapshot of them is missed.
 		verifEvent("manager.beforeConstruct", m.nodeType, m.root, key)
-		cs, err := newClientState(m.nc, m.construct, n)
-
-		if err != nil {
-			log.Printf("Error starting client %v: %v", n, err)
-		}
-
-		go func() {
-			err := cs.run()
-
-			if err != nil {
-				log.Printf("clientState error %v: %v\n", m.nodeType, err)
-			}
-
-			m.chDeleteCS <- key
-		}()
-
-		m.clientStates[key] = cs
+		var cs *clientState[T]
+		csReady := make(chan struct{})
 
 		// Set up subscriptions
-		subject := fmt.Sprintf("up.%v.>", cs.node.ID)
+		subject := fmt.Sprintf("up.%v.>", n.ID)
 
-		m.clientUpSub[key], err = cs.nc.Subscribe(subject, func(msg *nats.Msg) {
+		sub, err := m.nc.Subscribe(subject, func(msg *nats.Msg) {
+			<-csReady
+			if cs == nil {
+				// client was not created
+				return
+			}
+
 			points, err := data.PbDecodePoints(msg.Data)
 			if err != nil {
 				log.Println("Error decoding points")
@@ -377,6 +371,27 @@ func (m *Manager[T]) scan(id string) error {
 			return err
 		}
 
+		cs, err = newClientState(m.nc, m.construct, n)
+		close(csReady)
+
+		if err != nil {
+			log.Printf("Error starting client %v: %v", n, err)
+			_ = sub.Unsubscribe()
+			continue
+		}
+
+		go func() {
+			err := cs.run()
+
+			if err != nil {
+				log.Printf("clientState error %v: %v\n", m.nodeType, err)
+			}
+
+			m.chDeleteCS <- key
+		}()
+
+		m.clientStates[key] = cs
+		m.clientUpSub[key] = sub
 	}
 
 	// remove nodes that have been deleted
